@@ -45,7 +45,8 @@ def _guideline(g):
     return tuple(freeze(getattr(g, k, None)) for k in ("x", "y", "angle", "name", "color", "identifier"))
 
 
-def glyph_snapshot(glyph):
+def glyph_snapshot(glyph, mask=False):
+    """mask=True hides code points and component base names (what the colour-layer filter is known to rewrite, KF-C07-2)"""
     pen = _RecPointPen()
     glyph.drawPoints(pen)
     img = getattr(glyph, "image", None)
@@ -53,9 +54,9 @@ def glyph_snapshot(glyph):
         glyph.name,
         freeze(glyph.width),
         freeze(glyph.height),
-        tuple(glyph.unicodes),
+        tuple(glyph.unicodes) if not mask else "masked",
         tuple(pen.contours),
-        tuple(pen.components),
+        tuple(pen.components) if not mask else tuple(("masked",) + c[1:] for c in pen.components),
         tuple(_anchor(a) for a in glyph.anchors),
         freeze(dict(glyph.lib)),
         getattr(glyph, "note", None),
@@ -64,18 +65,23 @@ def glyph_snapshot(glyph):
     )
 
 
-def layer_snapshot(layer):
+def layer_snapshot(layer, mask=False):
+    if mask:
+        # KF-C07-2: glyph objects of colour layers are put into the working glyph set uncopied and are then rewritten by every
+        # later filter (decomposed, reversed, overlaps removed, code points cleared): only the membership is compared
+        return (layer.name, freeze(dict(layer.lib)), tuple(sorted(layer.keys())))
     return (
         layer.name,
         freeze(dict(layer.lib)),
         freeze(getattr(layer, "color", None)),
-        tuple(glyph_snapshot(layer[n]) for n in sorted(layer.keys())),
+        tuple(glyph_snapshot(layer[n], mask) for n in sorted(layer.keys())),
         tuple(layer.keys()) if not hasattr(layer, "_glyphs") else tuple(layer.keys()),
     )
 
 
-def font_snapshot(font):
-    """-> dict of named parts, so that a difference can be reported by part"""
+def font_snapshot(font, drop_lib_keys=(), mask_layers=(), drop_features=False, drop_category_of=None):
+    """-> dict of named parts, so that a difference can be reported by part.
+    The optional arguments hide exactly what a listed known finding is known to rewrite, so that any *other* change still shows."""
     info = {}
     for attr in sorted(fontInfoAttributesVersion3):
         v = getattr(font.info, attr, None)
@@ -86,16 +92,23 @@ def font_snapshot(font):
     snap = {
         "layerOrder": tuple(l.name for l in layers),
         "defaultLayer": default,
-        "lib": freeze(dict(font.lib)),
+        "lib": freeze(_masked_lib(font.lib, drop_lib_keys, drop_category_of)),
         "info": freeze(info),
         "kerning": freeze(dict(font.kerning)),
         "groups": freeze({k: list(v) for k, v in font.groups.items()}),
-        "features": font.features.text,
+        "features": font.features.text if not drop_features else "masked",
         "glyphOrder": freeze(list(font.glyphOrder)),
     }
     for l in layers:
-        snap["layer:" + l.name] = layer_snapshot(l)
+        snap["layer:" + l.name] = layer_snapshot(l, l.name in mask_layers)
     return snap
+
+
+def _masked_lib(lib, drop_keys, drop_category_of):
+    d = {k: v for k, v in dict(lib).items() if k not in drop_keys}
+    if drop_category_of and "public.openTypeCategories" in d:
+        d["public.openTypeCategories"] = {k: v for k, v in dict(d["public.openTypeCategories"]).items() if k != drop_category_of}
+    return d
 
 
 def diff_parts(a, b):
